@@ -7,7 +7,7 @@ except ImportError:
 
 READ, WRITE, AMO_ADD, AMO_AND, AMO_OR, AMO_SWAP, AMO_MIN, AMO_MINU, AMO_MAX, AMO_MAXU, AMO_XOR = 0, 1, 3, 4, 5, 6, 7, 8, 9, 10, 11
 AMOS = (AMO_ADD, AMO_AND, AMO_OR, AMO_SWAP, AMO_MIN, AMO_MINU, AMO_MAX, AMO_MAXU, AMO_XOR)
-FAMILIES = {'w': (WRITE,), 'rw': (READ, WRITE), 'amo_arith': (READ, WRITE, AMO_ADD, AMO_AND, AMO_OR, AMO_SWAP, AMO_XOR), 'amo_minmax': (WRITE, AMO_MIN, AMO_MINU, AMO_MAX, AMO_MAXU)}
+FAMILIES = {'w': (WRITE,), 'amo_add': (AMO_ADD,), 'rw': (READ, WRITE), 'amo_arith': (READ, WRITE, AMO_ADD, AMO_AND, AMO_OR, AMO_SWAP, AMO_XOR), 'amo_minmax': (WRITE, AMO_MIN, AMO_MINU, AMO_MAX, AMO_MAXU)}
 
 
 def z3_step(arr, t, a, l, d, dw=32):
